@@ -337,3 +337,367 @@ Fixpoint split_tapes (cnt : nat) (l : list Z) : list tape :=
 Definition tapes_of (cnt : nat) (z : Z) : list tape :=
   match z with Zpos p => split_tapes cnt (pbits p) | _ => [] end.
 Definition on_tapes {A} (f : tape -> A) (cnt : nat) (z : Z) : list A := map f (tapes_of cnt z).
+
+(** * Proofs *)
+Require Import ZifyBool.
+Ltac Zify.zify_post_hook ::= Z.div_mod_to_equations.
+
+Lemma bits_app : forall a b, bits (a ++ b) <-> bits a /\ bits b.
+Proof. intros. unfold bits. apply Forall_app. Qed.
+
+Lemma bits_firstn : forall n x, bits x -> bits (firstn n x).
+Proof. intros n x H. rewrite <- (firstn_skipn n x) in H. apply bits_app in H. tauto. Qed.
+
+Lemma bits_skipn : forall n x, bits x -> bits (skipn n x).
+Proof. intros n x H. rewrite <- (firstn_skipn n x) in H. apply bits_app in H. tauto. Qed.
+
+Lemma bits_nth : forall x i, bits x -> is01 (nth i x 0).
+Proof.
+  intros x i H. destruct (Nat.lt_ge_cases i (length x)) as [L|L].
+  - unfold bits in H. rewrite Forall_forall in H. apply H. apply nth_In. exact L.
+  - rewrite nth_overflow by exact L. left. reflexivity.
+Qed.
+
+Lemma draw_spec : forall n tp x tp', draw n tp = Some (x, tp') ->
+  x = firstn n tp /\ tp' = skipn n tp /\ length x = n.
+Proof.
+  intros n tp x tp' H. unfold draw in H. destruct (length tp <? n)%nat eqn:E; [discriminate|].
+  injection H as <- <-. apply Nat.ltb_ge in E. repeat split. apply firstn_length_le. exact E.
+Qed.
+
+Lemma draw_bits : forall n tp x tp', bits tp -> draw n tp = Some (x, tp') -> bits x /\ bits tp'.
+Proof.
+  intros n tp x tp' Hb H. apply draw_spec in H. destruct H as (-> & -> & _).
+  split; [apply bits_firstn | apply bits_skipn]; exact Hb.
+Qed.
+
+Lemma from_bits_bound : forall x, bits x -> 0 <= from_bits x < 2 ^ Z.of_nat (length x).
+Proof.
+  induction x as [|a x IH]; intros H.
+  - simpl. lia.
+  - inversion H as [|? ? Ha Hx]; subst. specialize (IH Hx).
+    cbn [from_bits length]. rewrite Nat2Z.inj_succ, Z.pow_succ_r by lia.
+    destruct Ha as [-> | ->]; lia.
+Qed.
+
+Theorem getrandbits_range : forall k tp v tp', bits tp -> getrandbits k tp = Some (v, tp') ->
+  0 <= v < 2 ^ Z.of_nat k /\ bits tp'.
+Proof.
+  intros k tp v tp' Hb H. unfold getrandbits in H.
+  destruct (draw k tp) as [[x t']|] eqn:E; [|discriminate]. injection H as <- <-.
+  destruct (draw_bits _ _ _ _ Hb E) as [Hx Ht]. apply draw_spec in E. destruct E as (_ & _ & L).
+  split; [|exact Ht]. rewrite <- L. apply from_bits_bound. exact Hx.
+Qed.
+
+(** ** unit vectors *)
+Definition unitv (u : list Z) : Prop := bits u /\ zsum u = 1.
+
+Lemma zsum_app : forall a b, zsum (a ++ b) = zsum a + zsum b.
+Proof. induction a as [|x a IH]; intros b; simpl; [reflexivity|]. rewrite IH. lia. Qed.
+
+Lemma zsum_nonneg : forall u, bits u -> 0 <= zsum u.
+Proof.
+  induction u as [|a u IH]; intros H; simpl; [lia|].
+  inversion H as [|? ? Ha Hu]; subst. specialize (IH Hu). destruct Ha as [-> | ->]; lia.
+Qed.
+
+Lemma bits_sum0 : forall u, bits u -> zsum u = 0 -> u = repeat 0 (length u).
+Proof.
+  induction u as [|a u IH]; intros H S0; simpl; [reflexivity|].
+  inversion H as [|? ? Ha Hu]; subst. simpl in S0. pose proof (zsum_nonneg u Hu).
+  destruct Ha as [-> | ->]; [|lia]. f_equal. apply IH; [exact Hu | lia].
+Qed.
+
+Lemma unitv_onehot : forall u, unitv u ->
+  exists j, (j < length u)%nat /\ u = repeat 0 j ++ 1 :: repeat 0 (length u - 1 - j).
+Proof.
+  induction u as [|a u IH]; intros [H S1].
+  - simpl in S1. lia.
+  - inversion H as [|? ? Ha Hu]; subst. simpl in S1. destruct Ha as [-> | ->].
+    + destruct IH as (j & Lj & E); [split; [exact Hu | lia]|].
+      exists (S j). split; [simpl; lia|]. simpl. f_equal. replace (length u - 0 - S j)%nat with (length u - 1 - j)%nat by lia. exact E.
+    + exists O. split; [simpl; lia|]. simpl. f_equal. rewrite !Nat.sub_0_r. apply bits_sum0; [exact Hu | lia].
+Qed.
+
+Lemma smul_1 : forall u, smul 1 u = u.
+Proof. unfold smul. induction u as [|a u IH]; cbn [map]; [reflexivity|]. rewrite IH, Z.mul_1_l. reflexivity. Qed.
+
+Lemma smul_0 : forall u, smul 0 u = repeat 0 (length u).
+Proof. unfold smul. induction u as [|a u IH]; cbn [map length repeat]; [reflexivity|]. rewrite IH, Z.mul_0_l. reflexivity. Qed.
+
+Lemma bits_repeat0 : forall n, bits (repeat 0 n).
+Proof. induction n; simpl; constructor; [left; reflexivity | assumption]. Qed.
+
+Lemma zsum_repeat0 : forall n, zsum (repeat 0 n) = 0.
+Proof. induction n; simpl; lia. Qed.
+
+Lemma vsub_self : forall u, vsub u u = repeat 0 (length u).
+Proof. induction u as [|a u IH]; simpl; [reflexivity|]. rewrite IH. f_equal. lia. Qed.
+
+Lemma vsub_zeros : forall u, vsub u (repeat 0 (length u)) = u.
+Proof. induction u as [|a u IH]; simpl; [reflexivity|]. rewrite IH. f_equal. lia. Qed.
+
+(** the two loop steps preserve "unit vector" and have the stated lengths *)
+Lemma uv_step_double : forall c u, is01 c -> unitv u ->
+  unitv (smul c u ++ vsub u (smul c u)) /\ length (smul c u ++ vsub u (smul c u)) = (2 * length u)%nat.
+Proof.
+  intros c u [-> | ->] [Hb Hs].
+  - rewrite smul_0, vsub_zeros. split.
+    + split; [apply bits_app; split; [apply bits_repeat0 | exact Hb]|]. rewrite zsum_app, zsum_repeat0. lia.
+    + rewrite app_length, repeat_length. lia.
+  - rewrite smul_1, vsub_self. split.
+    + split; [apply bits_app; split; [exact Hb | apply bits_repeat0]|]. rewrite zsum_app, zsum_repeat0. lia.
+    + rewrite app_length, repeat_length. lia.
+Qed.
+
+Lemma uv_step_keep : forall c u, is01 c -> unitv u ->
+  let v := smul c u in
+  let r := hd 0 u :: tl v ++ vsub (tl u) (tl v) in
+  unitv r /\ length r = (2 * length u - 1)%nat.
+Proof.
+  intros c u Hc [Hb Hs]. destruct u as [|a us]; [simpl in Hs; lia|].
+  inversion Hb as [|? ? Ha Hus]; subst. cbn [smul map hd tl]. fold (smul c us). simpl in Hs.
+  destruct Hc as [-> | ->].
+  - rewrite smul_0, vsub_zeros. split.
+    + split; [constructor; [exact Ha|]; apply bits_app; split; [apply bits_repeat0 | exact Hus]|].
+      cbn [zsum fold_right]. fold (zsum (repeat 0 (length us) ++ us)). rewrite zsum_app, zsum_repeat0. lia.
+    + cbn [length]. rewrite app_length, repeat_length. lia.
+  - rewrite smul_1, vsub_self. split.
+    + split; [constructor; [exact Ha|]; apply bits_app; split; [exact Hus | apply bits_repeat0]|].
+      cbn [zsum fold_right]. fold (zsum (us ++ repeat 0 (length us))). rewrite zsum_app, zsum_repeat0. lia.
+    + cbn [length]. rewrite app_length, repeat_length. lia.
+Qed.
+
+Lemma shift_bit : forall b i, 0 <= b ->
+  b / 2 ^ Z.of_nat i = 2 * (b / 2 ^ Z.of_nat (S i)) + (if Z.testbit b (Z.of_nat i) then 1 else 0).
+Proof.
+  intros b i Hb. rewrite Nat2Z.inj_succ, Z.pow_succ_r by lia.
+  assert (P : 0 < 2 ^ Z.of_nat i) by (apply Z.pow_pos_nonneg; lia).
+  replace (2 * 2 ^ Z.of_nat i) with (2 ^ Z.of_nat i * 2) by lia.
+  rewrite <- Z.div_div by lia.
+  destruct (Z.testbit b (Z.of_nat i)) eqn:E.
+  - apply Z.testbit_true in E; [|lia]. set (q := b / 2 ^ Z.of_nat i) in *. clearbody q. lia.
+  - apply Z.testbit_false in E; [|lia]. set (q := b / 2 ^ Z.of_nat i) in *. clearbody q. lia.
+Qed.
+
+Lemma unitv_pair : forall t, is01 t -> unitv [t; 1 - t].
+Proof. intros t [-> | ->]; (split; [repeat constructor; (left; reflexivity) || (right; reflexivity) | reflexivity]). Qed.
+
+Lemma uv_loop_shape : forall (b : Z) (k : nat), 0 <= b -> (1 <= k)%nat -> b / 2 ^ Z.of_nat (k - 1) = 1 ->
+  forall fuel x u i tp r tp',
+    bits tp -> bits x -> unitv u -> Z.of_nat (length u) = b / 2 ^ Z.of_nat i + 1 ->
+    uv_loop fuel b k x u i tp = Some (r, tp') ->
+    unitv r /\ Z.of_nat (length r) = b + 1 /\ bits tp'.
+Proof.
+  intros b k Hb Hk Htop. induction fuel as [|fuel IH]; intros x u i tp r tp' Htp Hx Hu Hlen H.
+  - discriminate.
+  - cbn [uv_loop] in H. destruct i as [|i'].
+    + injection H as <- <-. split; [exact Hu|]. split; [|exact Htp].
+      rewrite Hlen. simpl. rewrite Z.div_1_r. reflexivity.
+    + pose proof (bits_nth x i' Hx) as Hc. pose proof (shift_bit b i' Hb) as Hs.
+      destruct (Z.testbit b (Z.of_nat i')) eqn:Eb.
+      * destruct (uv_step_double _ _ Hc Hu) as [Hu' Hl'].
+        apply (IH _ _ _ _ _ _ Htp Hx Hu') in H; [exact H|]. rewrite Hl'. lia.
+      * destruct (hd 0 (smul (nth i' x 0) u) =? 0) eqn:Eh.
+        -- destruct (uv_step_keep _ _ Hc Hu) as [Hu' Hl'].
+           apply (IH _ _ _ _ _ _ Htp Hx Hu') in H; [exact H|]. rewrite Hl'.
+           assert (1 <= length u)%nat by (destruct Hu as [_ S1]; destruct u; [simpl in S1; lia | simpl; lia]). lia.
+        -- destruct (draw (k - i') tp) as [[nb tp1]|] eqn:Ed; [|discriminate].
+           destruct (draw_bits _ _ _ _ Htp Ed) as [Hnb Htp1].
+           assert (Hx' : bits (firstn i' x ++ nb)) by (apply bits_app; split; [apply bits_firstn; exact Hx | exact Hnb]).
+           apply (IH _ _ _ _ _ _ Htp1 Hx' (unitv_pair _ (bits_nth _ _ Hx'))) in H; [exact H|].
+           rewrite Htop. reflexivity.
+Qed.
+
+Lemma bit_length_pos : forall b, 1 <= b ->
+  (1 <= bit_length b)%nat /\ b / 2 ^ Z.of_nat (bit_length b - 1) = 1 /\ b < 2 ^ Z.of_nat (bit_length b).
+Proof.
+  intros b Hb. unfold bit_length. destruct (b =? 0) eqn:E; [lia|].
+  rewrite Z.abs_eq by lia. pose proof (Z.log2_nonneg b) as L0.
+  destruct (Z.log2_spec b ltac:(lia)) as [L1 L2].
+  assert (EQ : Z.of_nat (Z.to_nat (Z.log2 b + 1) - 1) = Z.log2 b) by lia.
+  split; [lia|]. rewrite EQ. split.
+  - symmetry. apply Z.div_unique with (r := b - 2 ^ Z.log2 b); [|ring].
+    left. rewrite Z.pow_succ_r in L2 by lia. lia.
+  - rewrite Z2Nat.id by lia. replace (Z.log2 b + 1) with (Z.succ (Z.log2 b)) by lia. exact L2.
+Qed.
+
+Theorem unit_vector_shape : forall fuel n tp u tp', 1 <= n -> bits tp ->
+  random_unit_vector fuel n tp = Some (u, tp') ->
+  length u = Z.to_nat n /\ unitv u /\ bits tp'.
+Proof.
+  intros fuel n tp u tp' Hn Htp H. unfold random_unit_vector in H.
+  destruct (n =? 1) eqn:E1.
+  - injection H as <- <-. apply Z.eqb_eq in E1. subst n.
+    split; [reflexivity|]. split; [|exact Htp]. split; [repeat constructor; right; reflexivity | reflexivity].
+  - apply Z.eqb_neq in E1. destruct (draw (bit_length (n - 1)) tp) as [[x tp1]|] eqn:Ed; [|discriminate].
+    destruct (draw_bits _ _ _ _ Htp Ed) as [Hx Htp1].
+    destruct (bit_length_pos (n - 1) ltac:(lia)) as (K1 & K2 & _).
+    apply (uv_loop_shape (n - 1) _ ltac:(lia) K1 K2) in H; try assumption.
+    + destruct H as (Hu & Hl & Ht). split; [lia|]. split; assumption.
+    + apply unitv_pair. apply bits_nth. exact Hx.
+    + rewrite K2. reflexivity.
+Qed.
+
+Corollary unit_vector_onehot : forall fuel n tp u tp', 1 <= n -> bits tp ->
+  random_unit_vector fuel n tp = Some (u, tp') ->
+  exists j, (j < Z.to_nat n)%nat /\ u = repeat 0 j ++ 1 :: repeat 0 (Z.to_nat n - 1 - j).
+Proof.
+  intros fuel n tp u tp' Hn Htp H. destruct (unit_vector_shape _ _ _ _ _ Hn Htp H) as (L & U & _).
+  destruct (unitv_onehot u U) as (j & Lj & E). rewrite L in *. exists j. split; assumption.
+Qed.
+
+(** ** shuffle: one Fisher-Yates step with a one-hot vector is a swap *)
+Lemma in_prod_zeros : forall xs m, in_prod xs (repeat 0 m) = 0.
+Proof. induction xs as [|b r IH]; intros [|m]; simpl; try reflexivity. rewrite IH. lia. Qed.
+
+Lemma in_prod_comm : forall a b, in_prod a b = in_prod b a.
+Proof. induction a as [|x a IH]; intros [|y b]; simpl; try reflexivity. rewrite IH. lia. Qed.
+
+Lemma in_prod_onehot : forall j xs m, (j < length xs)%nat ->
+  in_prod xs (repeat 0 j ++ 1 :: repeat 0 m) = nth j xs 0.
+Proof.
+  induction j as [|j IH]; intros [|b r] m L; simpl in L; try lia.
+  - simpl. rewrite in_prod_zeros. lia.
+  - cbn [repeat app in_prod nth]. rewrite IH by lia. lia.
+Qed.
+
+Lemma map_repeat' : forall (f : Z -> Z) a n, map f (repeat a n) = repeat (f a) n.
+Proof. induction n; simpl; [reflexivity|]. rewrite IHn. reflexivity. Qed.
+
+Lemma smul_onehot : forall t j m, smul t (repeat 0 j ++ 1 :: repeat 0 m) = repeat 0 j ++ t :: repeat 0 m.
+Proof.
+  intros t j m. unfold smul. rewrite map_app. cbn [map]. rewrite !map_repeat', Z.mul_0_r, Z.mul_1_r. reflexivity.
+Qed.
+
+Lemma vadd_zeros : forall r, vadd r (repeat 0 (length r)) = r.
+Proof. induction r as [|b r IH]; simpl; [reflexivity|]. rewrite IH. f_equal. lia. Qed.
+
+Lemma vadd_onehot : forall j xs m t, (length xs = j + 1 + m)%nat ->
+  vadd xs (repeat 0 j ++ t :: repeat 0 m) = firstn j xs ++ (nth j xs 0 + t) :: skipn (S j) xs.
+Proof.
+  induction j as [|j IH]; intros [|b r] m t L; simpl in L; try lia.
+  - cbn [repeat app vadd firstn nth skipn]. replace m with (length r) by lia. rewrite vadd_zeros. reflexivity.
+  - cbn [repeat app vadd firstn nth]. rewrite IH by lia. rewrite Z.add_0_r. reflexivity.
+Qed.
+
+Lemma split_nth : forall j (xs : list Z), (j < length xs)%nat -> xs = firstn j xs ++ nth j xs 0 :: skipn (S j) xs.
+Proof.
+  induction j as [|j IH]; intros [|b r] L; simpl in L; try lia.
+  - reflexivity.
+  - cbn [firstn nth app]. f_equal. change (skipn (S (S j)) (b :: r)) with (skipn (S j) r). apply IH. lia.
+Qed.
+
+Lemma shuffle_step_perm : forall x j, (j < length x)%nat ->
+  Permutation (shuffle_step x (repeat 0 j ++ 1 :: repeat 0 (length x - 1 - j))) x.
+Proof.
+  intros [|a xs] j L; simpl in L; [lia|]. unfold shuffle_step. cbn [hd tl length].
+  destruct j as [|j].
+  - cbn [repeat app]. cbn [in_prod]. rewrite in_prod_zeros.
+    replace (a - (a * 1 + 0)) with 0 by lia. rewrite smul_0. cbn [length].
+    rewrite repeat_length. replace (S (length xs) - 1 - 0)%nat with (length xs) by lia.
+    cbn [repeat vadd]. rewrite vadd_zeros. replace (a * 1 + 0 + 0) with a by lia. apply Permutation_refl.
+  - replace (S (length xs) - 1 - S j)%nat with (length xs - 1 - j)%nat by lia.
+    set (m := (length xs - 1 - j)%nat).
+    cbn [repeat app in_prod]. rewrite in_prod_onehot by lia. set (c := nth j xs 0).
+    replace (a * 0 + c) with c by lia.
+    change (0 :: repeat 0 j ++ 1 :: repeat 0 m) with (repeat 0 (S j) ++ 1 :: repeat 0 m).
+    rewrite smul_onehot. cbn [repeat app vadd]. rewrite vadd_onehot by (unfold m; lia). fold c.
+    replace (c + 0) with c by lia. replace (c + (a - c)) with a by lia.
+    rewrite (split_nth j xs ltac:(lia)) at 3. fold c.
+    set (l1 := firstn j xs). set (l2 := skipn (S j) xs).
+    apply Permutation_trans with (c :: a :: l1 ++ l2).
+    + apply perm_skip. apply Permutation_sym. apply Permutation_middle.
+    + apply Permutation_trans with (a :: c :: l1 ++ l2); [apply perm_swap|].
+      apply perm_skip. apply Permutation_middle.
+Qed.
+
+Theorem shuffle_from_perm : forall fuel steps x tp r tp', (steps <= length x)%nat -> bits tp ->
+  shuffle_from fuel steps x tp = Some (r, tp') -> Permutation r x /\ bits tp'.
+Proof.
+  intros fuel. induction steps as [|s IH]; intros x tp r tp' Ls Htp H.
+  - injection H as <- <-. split; [apply Permutation_refl | exact Htp].
+  - cbn [shuffle_from] in H.
+    destruct (random_unit_vector fuel (Z.of_nat (length x)) tp) as [[u tp1]|] eqn:Eu; [|discriminate].
+    assert (Hn : 1 <= Z.of_nat (length x)) by lia.
+    destruct (unit_vector_onehot _ _ _ _ _ Hn Htp Eu) as (j & Lj & ->).
+    destruct (unit_vector_shape _ _ _ _ _ Hn Htp Eu) as (_ & _ & Htp1).
+    rewrite Nat2Z.id in *.
+    pose proof (shuffle_step_perm x j Lj) as P.
+    destruct (shuffle_step x (repeat 0 j ++ 1 :: repeat 0 (length x - 1 - j))) as [|y rest] eqn:Es.
+    + apply Permutation_length in P. simpl in P. lia.
+    + destruct (shuffle_from fuel s rest tp1) as [[r1 tp2]|] eqn:Er; [|discriminate].
+      injection H as <- <-.
+      pose proof (Permutation_length P) as PL. simpl in PL.
+      assert (Ls' : (s <= length rest)%nat) by lia.
+      destruct (IH _ _ _ _ Ls' Htp1 Er) as [P1 Ht2].
+      split; [|exact Ht2]. apply Permutation_trans with (y :: rest); [apply perm_skip; exact P1 | exact P].
+Qed.
+
+Theorem shuffle_perm : forall fuel x tp r tp', bits tp ->
+  shuffle fuel x tp = Some (r, tp') -> Permutation r x /\ bits tp'.
+Proof. intros fuel x tp r tp' Htp H. unfold shuffle in H. assert (L : (length x - 1 <= length x)%nat) by lia. apply (shuffle_from_perm _ _ _ _ _ _ L Htp H). Qed.
+
+(** ** random_derangement *)
+Lemma zprod_nonzero : forall l, zprod l <> 0 -> Forall (fun d => d <> 0) l.
+Proof.
+  induction l as [|a l IH]; intros H; [constructor|]. simpl in H.
+  constructor; [intros ->; apply H; lia | apply IH; intros E; apply H; rewrite E; lia].
+Qed.
+
+Lemma vsub_nth : forall y x i, (i < length x)%nat -> length y = length x ->
+  nth i (vsub y x) 0 = nth i y 0 - nth i x 0 /\ (i < length (vsub y x))%nat.
+Proof.
+  induction y as [|a y IH]; intros [|b x] i L E; simpl in *; try lia.
+  destruct i as [|i]; [split; [reflexivity | lia]|].
+  destruct (IH x i ltac:(lia) ltac:(lia)) as [E1 E2]. split; [exact E1 | lia].
+Qed.
+
+Theorem derangement_no_fixed_point : forall rounds fuel x y0 tp y tp', bits tp ->
+  Permutation y0 x ->
+  derange_loop rounds fuel x y0 tp = Some (y, tp') ->
+  Permutation y x /\ (forall i, (i < length x)%nat -> nth i y 0 <> nth i x 0) /\ bits tp'.
+Proof.
+  induction rounds as [|r IH]; intros fuel x y0 tp y tp' Htp P0 H; [discriminate|].
+  cbn [derange_loop] in H. destruct (shuffle fuel y0 tp) as [[y1 tp1]|] eqn:Es; [|discriminate].
+  destruct (shuffle_perm _ _ _ _ _ Htp Es) as [P1 Htp1].
+  assert (P : Permutation y1 x) by (eapply Permutation_trans; eassumption).
+  destruct (zprod (vsub y1 x) =? 0) eqn:Ez.
+  - apply (IH _ _ _ _ _ _ Htp1 P H).
+  - injection H as <- <-. split; [exact P|]. split; [|exact Htp1].
+    apply Z.eqb_neq in Ez. apply zprod_nonzero in Ez. rewrite Forall_forall in Ez.
+    intros i Li E. destruct (vsub_nth y1 x i Li (Permutation_length P)) as [E1 E2].
+    apply (Ez (nth i (vsub y1 x) 0)); [apply nth_In; exact E2 | lia].
+Qed.
+
+Theorem random_derangement_ok : forall rounds fuel x tp y tp', bits tp ->
+  random_derangement rounds fuel x tp = Some (y, tp') ->
+  Permutation y x /\ (forall i, (i < length x)%nat -> nth i y 0 <> nth i x 0).
+Proof.
+  intros rounds fuel x tp y tp' Htp H. unfold random_derangement in H.
+  destruct (derangement_no_fixed_point _ _ _ _ _ _ _ Htp (Permutation_refl x) H) as (P & N & _). split; assumption.
+Qed.
+
+(** ** sample (population branch): a sub-selection of the population *)
+Theorem sample_pop_subselection : forall fuel pop k tp r tp', (k <= length pop)%nat -> bits tp ->
+  sample_pop fuel pop k tp = Some (r, tp') ->
+  length r = k /\ exists rest, Permutation (r ++ rest) pop.
+Proof.
+  intros fuel pop k tp r tp' Lk Htp H. unfold sample_pop in H.
+  destruct (shuffle_from fuel k pop tp) as [[x tp1]|] eqn:E; [|discriminate]. injection H as <- <-.
+  destruct (shuffle_from_perm _ _ _ _ _ _ Lk Htp E) as [P _].
+  split.
+  - apply firstn_length_le. rewrite (Permutation_length P). exact Lk.
+  - exists (skipn k x). rewrite firstn_skipn. exact P.
+Qed.
+
+(** ** choice returns a member *)
+Theorem choice_member : forall fuel seq tp v tp', bits tp -> choice fuel seq tp = Some (v, tp') -> In v seq.
+Proof.
+  intros fuel seq tp v tp' Htp H. unfold choice in H. destruct seq as [|a s]; [discriminate|].
+  destruct (random_unit_vector fuel (Z.of_nat (length (a :: s))) tp) as [[u tp1]|] eqn:Eu; [|discriminate].
+  injection H as <- <-.
+  assert (Hn : 1 <= Z.of_nat (length (a :: s))) by (simpl; lia).
+  destruct (unit_vector_onehot _ _ _ _ _ Hn Htp Eu) as (j & Lj & ->). rewrite Nat2Z.id in *.
+  rewrite in_prod_comm, in_prod_onehot by exact Lj. apply nth_In. exact Lj.
+Qed.
